@@ -63,7 +63,7 @@ def run_checks(dst, base, props, tier):
     res = {}
     for p in props:
         env = dict(os.environ, VERIF_REPO=dst, VERIF_EVIDENCE_DIR=os.path.join(base, 'ev'),
-                   VERIF_REPLAY_DIR=os.path.join(base, 'rp'))
+                   VERIF_REPLAY_DIR=os.path.join(base, 'rp'), VERIF_FAILFAST='1')
         t0 = time.time()
         r = subprocess.run([os.path.join(runner.VERIF, 'check'), p, '--tier', tier],
                            capture_output=True, text=True, env=env)
@@ -109,6 +109,7 @@ def main(argv):
             ok, msg = apply_patch(dst, path)
             if not ok:
                 rows.append((name, meta['kind'], 'PATCH-FAILED', msg.replace('\n', ' ')[:100]))
+                bad += 1
                 continue
             if skip_tests:
                 green, tail = True, 'skipped'
@@ -133,6 +134,6 @@ def main(argv):
             rows.append((name, meta['kind'], verdict, detail[:260]))
         finally:
             shutil.rmtree(base, ignore_errors=True)
-        print('%-44s %s %-28s %s' % rows[-1], flush=True)
+            print('%-44s %s %-28s %s' % rows[-1], flush=True)
     print('mutants: %d run, %d not as expected' % (len(rows), bad))
     return 1 if bad else 0
